@@ -2,7 +2,7 @@
   Round-trip development, part 7: the mutual induction over terms.
 -/
 import Proofs.RT.Term
-import Props.C10
+import Props.C10a
 set_option autoImplicit false
 
 namespace Narsese
